@@ -12,6 +12,11 @@
   metadata of every key, what Get/GetAll return) after one more `closeStep` (flush of the write
   buffer through the storage encoding, instance dropped) equals the view before it.
 
+  Keys: the model stores a record under any key.  The file format holds non-empty keys of at
+  most 65535 bytes; the statements are to be read for such keys.  (For the others the code
+  acknowledges the write and its writer refuses the entry — finding
+  `C05-unstorable-key-acknowledged`, reproduced by the correspondence driver, not by this model.)
+
   Proved about `Holds`:
     * `not_holds_gob`        — with the gob encoding a typed zero comes back as "no value";
     * `not_holds_incfail`    — with `incFailClean = false` a reloaded record whose conditional
